@@ -1,5 +1,14 @@
 """C08 — body editing behaves like an ordered list of elements (spec module Body)."""
 
+MANIFEST = dict(
+    module="Body", ref="§5 C08",
+    text="The reference list machine Body.tla is model-checked exhaustively (invariants + action properties) and every "
+         "operation sequence to the BFS depth, plus seeded random long ones, is replayed on the real library; the in-memory "
+         "body and the saved main part after every step are judged by Body_Trace.tla. Exhaustive small-scope over histories "
+         "is the right level for index/handle arithmetic over a heterogeneous list.",
+    technique="TLA+ spec Body; TLC exhaustive MC + TLC-generated behaviours replayed on the library + TLC trace judge",
+)
+
 LEVEL = "model_checking"
 RULE = ("behaviours = every sequence of body operations (constructors, section-touching calls, the three "
         "removals with every index in -1..len+1 and every live/removed/foreign handle) up to the tier's depth "
